@@ -1610,7 +1610,10 @@ class C09(ExpectSpec):
                   'C09_fenced_code_verbatim with C09_closing_fence_exact (a fenced code block is verbatim whatever it holds: for every list of '
                   'content lines, any characters except a line terminator inside a line and none of the lines the closing fence, the block loop '
                   'renders the fence, the content and the fence to <pre><code>escape(content)</code></pre>; the closing pattern built from a '
-                  'fence matches exactly the line that is the fence). Indented blocks and fences with class names are decided by the '
+                  'fence matches exactly the line that is the fence); C09_indented_verbatim with C09_indentation_removed (an indented paragraph, '
+                  'end to end: blanks then text over the safe alphabet renders to pre/code around the escaped text with the indentation removed, '
+                  'session unchanged; no earlier rule matches a line starting with a blank, the opening pattern has one derivation, the '
+                  'indentation filter is evaluated symbolically). Multi-line indented blocks and fences with class names are decided by the '
                   'escaped-content oracle and correspondence.')
     rule = ('fenced blocks with adversarial content lines (every markup form) not equal to the fence, inline code with content from the '
             "property's domain, indented paragraphs; all 16 safe modes; expected = escaped content; non-trivial = content contains markup")
